@@ -163,6 +163,7 @@ class Engine:
         self.float_mode = "real"
         self.float_strict = False
         self.const_overrides = {}
+        self.ext_base_methods = {}
         self.spec_mode = False
         self.st = None
         self._decisions = None
@@ -713,10 +714,30 @@ class Engine:
     def e_Name(self, e, fr):
         return self.lookup(e.id, fr)
 
+    def havoc_loop_locals(self, s, fr, keep=()):
+        """Start of the generic loop iteration: every local assigned in the body
+        (and not given a value by the invariant) is unknown."""
+        names = set()
+        for n in ast.walk(ast.Module(body=list(s.body), type_ignores=[])):
+            if isinstance(n, ast.Name) and isinstance(n.ctx, ast.Store):
+                names.add(n.id)
+        if isinstance(s, ast.For):
+            for n in ast.walk(s.target):
+                if isinstance(n, ast.Name):
+                    names.discard(n.id)
+        for nm in names:
+            if nm not in keep:
+                fr.env[nm] = Havoc(nm)
+
     def lookup(self, name, fr):
         env = fr.env
         if name in env:
-            return env[name]
+            v = env[name]
+            if isinstance(v, Havoc):
+                self.prove("loop-invariant:local-%r-is-carried-across-iterations-but-no-invariant-describes-it(%s)"
+                           % (name, fr.fi.qualname if fr.fi else "?"), False, props=("*",), where="%s:%d" % (fr.file, fr.line))
+                raise PathEnd()
+            return v
         if fr.spec_env is not None and name in fr.spec_env:
             return fr.spec_env[name]
         mod = fr.module
@@ -826,6 +847,9 @@ class Engine:
             d = obj.name + "." + name
             if d in self.lib:
                 return LibCallable(d, self.lib[d])
+            hm = self.ext_base_methods.get(obj.name, {})
+            if name in hm:
+                return LibCallable(d, lambda e, a, k, _f=hm[name]: _f(e, a[0], list(a[1:]), k))
             raise Unsupported("class attribute %s.%s" % (obj.name, name))
         if isinstance(obj, tuple) and hasattr(obj, "_fields"):
             return getattr(obj, name)
@@ -863,6 +887,12 @@ class Engine:
                 if m[0] == "const":
                     c, ex = m[1]
                     return self.eval(ex, Frame(None, {}, c.module))
+            # methods inherited from a base class outside the package (threading.Thread, ...)
+            for cn in self.prog.mro(obj.cls):
+                for b in self.prog.classes[cn].bases:
+                    hm = self.ext_base_methods.get(b.split(".")[-1], {})
+                    if name in hm:
+                        return IfaceMethod(obj, name, hm[name])
             ga = self.prog.find_method(obj.cls, "__getattr__")
             if ga is not None:
                 return self.call_value(BoundMethod(obj, ga[1]), [name], {})
@@ -1076,6 +1106,8 @@ class Engine:
                 m = self.prog.find_method(b.cls, nm)
                 if m is not None:
                     return self.call_value(BoundMethod(b, m[1]), [a], {})
+        if isinstance(a, Opq) and a.tag == "time" or isinstance(b, Opq) and b.tag == "time":
+            return Opq(tag="time")
         if a is None or b is None or (sa and num_b) or (sb and num_a):
             raise PyRaise("TypeError", ("unsupported operand type(s)",), node)
         raise Unsupported("binop %s on %r, %r" % (type(op).__name__, a, b))
@@ -1989,6 +2021,14 @@ def lazy_ite(c, a, b):
         return vite(c, a, b)
     except TypeError:
         return MaybeVal(c, a, b)
+
+
+class Havoc:
+    """Value of a local that is assigned inside a loop body, at the start of the
+    generic iteration: unknown unless the loop invariant says what it is."""
+
+    def __init__(self, name):
+        self.name = name
 
 
 class SliceVal:
